@@ -1376,6 +1376,20 @@ class SFloat:
     def __repr__(self):
         return f"SFloat<({self.n})/{self.d} +[{float(self.elo):.3g},{float(self.ehi):.3g}]>"
 
+    def __format__(self, spec):
+        import re as _re
+        m = _re.fullmatch(r"\.(\d)f", spec)
+        if not m:
+            raise Unmodelled(f"format spec {spec!r} on a symbolic float")
+        nd = int(m.group(1))
+        if self < 0:
+            raise Unmodelled("formatting a negative symbolic float")
+        k = round(self * (10 ** nd))          # any admissible rounding
+        if isinstance(k, int):
+            return format(k / 10 ** nd, spec)
+        ip, fr = divmod(k, 10 ** nd)
+        return format(ip, "d") + "." + format(fr, f"0{nd}d")
+
     def as_integer_ratio(self):
         if self.exact():
             return self.n, self.d        # not reduced: callers must be scale-invariant
